@@ -13,6 +13,8 @@ What is traced (every item through the real `ModelParameter.compute_update` disp
     scalar rule (`sum_dim(y_x_model)`, `sum_dim(model_x_model)` separately: the second operand is a plain tensor, NOT masked)
     is still translated — it yields `gen_scalar_sum_masks = [true; false]`, which breaks the tie lemma, as it must;
   * the statistics `x**2`, `y*model`, `model**2`;
+  * the mixture std rules (`for_ind_std_mixture`, normal and burn-in): probed with zero-dispersion statistics — do they call
+    `compute_std_from_variance` and raise (guarded) or return 0 (unguarded)?  -> `gen_mix_std_guarded`, `gen_mix_std_burn_guarded`;
   * the order of events of `McmcSaemCompatibleModel.update_parameters` on a recording state (Compute i / Assign i);
   * the choice normal / burn-in rule of `compute_update`.
 Anything unexpected raises `Untraceable` (fail closed)."""
@@ -247,6 +249,48 @@ def generate() -> tuple[str, dict]:
     out.append(f"Definition gen_ind_std_tol : Q := {_q(tol_ind)}.\n")
     facts["guard"] = f"variance {op} tol"
     facts["ind_std_tol"] = float(tol_ind)
+
+    # ---- mixture std rules: do they go through compute_std_from_variance?  Concrete probe through the real dispatch, with
+    #      zero-dispersion statistics (every individual at the cluster's old mean): a guarded rule calls the guard and
+    #      raises LeaspyConvergenceError; an unguarded one calls nothing and returns 0.
+    guard_calls = []
+    real_guard = mutil.compute_std_from_variance
+
+    def counting_guard(variance, varname=None, **kws):
+        guard_calls.append((varname, dict(kws)))
+        return real_guard(variance, varname, **kws)
+
+    try:
+        mpm = ModelParameter.for_ind_std_mixture("x", (2,), tol=1e-5)
+    except Exception as e:
+        raise Untraceable(f"for_ind_std_mixture: {type(e).__name__}: {e}")
+    if mpm.update_rule_burn_in is None:
+        raise Untraceable("for_ind_std_mixture: no burn-in rule any more")
+    zst = {"x_mean": torch.zeros(2, dtype=torch.float64), "x": torch.zeros(5, 1, dtype=torch.float64),
+           "nll_regul_ind_sum_ind": WeightedTensor(torch.ones(5, 2, dtype=torch.float64))}
+    zss = {"x": torch.zeros(5, 1, dtype=torch.float64), "x_sqr": torch.zeros(5, 1, dtype=torch.float64)}
+    mix_guarded = {}
+    mutil.compute_std_from_variance = counting_guard
+    try:
+        for b in (False, True):
+            guard_calls.clear()
+            try:
+                r = mpm.compute_update(state=zst, suff_stats=zss, burn_in=b)
+                raised = False
+            except LeaspyConvergenceError:
+                raised = True
+            if raised != bool(guard_calls):
+                raise Untraceable(f"mixture std rule (burn_in={b}): raised={raised} with {len(guard_calls)} call(s) of the guard")
+            if not raised and not (tuple(r.shape) == (2,) and bool((r == 0).all())):
+                raise Untraceable(f"mixture std rule (burn_in={b}) returns {r!r} on zero-dispersion statistics")
+            mix_guarded[b] = raised
+    finally:
+        mutil.compute_std_from_variance = real_guard
+    out.append("(* compute_ind_param_std_from_suff_stats_mixture / ..._burn_in through for_ind_std_mixture(tol=1e-5) on zero-dispersion\n"
+               "   statistics: does the rule call compute_std_from_variance and raise LeaspyConvergenceError (true), or return 0 (false)? *)\n"
+               f"Definition gen_mix_std_guarded : bool := {str(mix_guarded[False]).lower()}.\n"
+               f"Definition gen_mix_std_burn_guarded : bool := {str(mix_guarded[True]).lower()}.\n")
+    facts["mixture_std_guarded"] = {"normal": mix_guarded[False], "burn_in": mix_guarded[True]}
 
     # ---- masks of the summed operands, on a real state with a missing entry
     facts["masks"] = masks = _mask_probe()
